@@ -18,6 +18,14 @@ import (
 
 const c06Fam = gen.FAscii | gen.FHTML | gen.FNewline | gen.FWide | gen.FMD | gen.FCSV | gen.FCR | gen.FEmoji | gen.FEdge
 
+// c06Vocabulary: words a table renderer built on templates is likely to have a meaning of its own for - the
+// elements and attributes of the output, the names of template functions, fields and actions, template names.
+// The caller's free-form strings (template name, class, id, caption, row classes) may be any of them.
+var c06Vocabulary = []string{"table", "caption", "thead", "tbody", "tfoot", "tr", "th", "td", "row", "cell", "header", "headers", "body",
+	"class", "id", "Class", "Id", "Caption", "HaveRowClass", "Headers", "Rows", "Cells", "RowClass", "OnePlus", "IsSeparator",
+	"define", "template", "block", "end", "range", "with", "if", "else", "nil", "html", "js", "urlquery", "print", "index", "len",
+	"_html_template_htmlescaper", "_html_template_attrescaper", "tabular", "tabular.html", "html.table", "main", "root", "content", "T", "."}
+
 type c06Case struct {
 	Table       gen.TableSpec `json:"table"`
 	ID          gen.Q         `json:"id"`
@@ -447,6 +455,9 @@ func c06Random(c *Ctx, i int, r *gen.R) {
 		if r.Chance(1, 3) {
 			return ""
 		}
+		if r.Chance(1, 8) {
+			return gen.Q(gen.Pick(r, c06Vocabulary))
+		}
 		return gen.Q(r.Str(c06Fam, 5))
 	}
 	cs.ID, cs.Class, cs.Caption = opt(), opt(), opt()
@@ -456,6 +467,8 @@ func c06Random(c *Ctx, i int, r *gen.R) {
 		cs.TName = r.Word()
 		if r.Chance(1, 3) {
 			cs.TName = r.Str(c06Fam, 3) // a template name is any string
+		} else if r.Chance(1, 2) {
+			cs.TName = gen.Pick(r, c06Vocabulary) // also a word the renderer has a use of its own for
 		}
 	}
 	if r.Chance(1, 2) {
